@@ -38,7 +38,24 @@ namespace ip {
 		, m_queue_size_limit(-1)
 	{}
 
-	tcp::acceptor::acceptor(acceptor&&) = default;
+	tcp::acceptor::acceptor(acceptor&& a)
+		: socket(std::move(a))
+		, m_accept_handler(std::move(a.m_accept_handler))
+		, m_accept_handler2(std::move(a.m_accept_handler2))
+		, m_queue_size_limit(a.m_queue_size_limit)
+		, m_incoming_conns(std::move(a.m_incoming_conns))
+		, m_new_socket(std::move(a.m_new_socket))
+		, m_accept_into(a.m_accept_into)
+		, m_remote_endpoint(a.m_remote_endpoint)
+	{
+		// a pending move-accept accepts into the socket the acceptor itself
+		// holds, which has moved along
+		if (a.m_new_socket && m_accept_into == &*a.m_new_socket)
+			m_accept_into = &*m_new_socket;
+		a.m_accept_into = nullptr;
+		a.m_remote_endpoint = nullptr;
+		a.m_queue_size_limit = -1;
+	}
 
 	tcp::acceptor::~acceptor()
 	{
